@@ -144,6 +144,7 @@ def thorough(ctx):
 def mutants():
     from ..selftest import TextMutant as T
     return [
+        T("preserve-needs-html-ns", REL, "                    and (preserve or token[\"name\"] in self.spacePreserveElements):", "                    and (preserve or (token[\"name\"] in self.spacePreserveElements and token.get(\"namespace\", \"http://www.w3.org/1999/xhtml\") == \"http://www.w3.org/1999/xhtml\")):", "R17.1"),
         T("emptytag-counts", REL, "            if type == \"StartTag\" \\\n", "            if type in (\"StartTag\", \"EmptyTag\") \\\n", "R17.1"),
         T("comment-rewritten", REL, "            elif not preserve and type == \"Characters\":", "            elif not preserve and type in (\"Characters\", \"Comment\"):", "R17.1"),
         T("drop-empty", REL, "            yield token\n\n\ndef collapse_spaces", "            if token.get(\"data\", True):\n                yield token\n\n\ndef collapse_spaces", "R17.1"),
